@@ -688,8 +688,14 @@ func runProducerScenario(t testing.TB, rec *vRec, sc *prodScenario) {
 			m.Headers = nil
 			m.Value = StringEncoder(val)
 			m.Timestamp = time.Time{}
+			rsub := &simSubmitted{value: []byte(val), tsMs: -1}
+			if v.IsAtLeast(V0_11_0_0) {
+				for i := 0; i < cfgv.Interceptors; i++ {
+					rsub.hdrs = append(rsub.hdrs, RecordHeader{Key: []byte(fmt.Sprintf("ic%d", i+1)), Value: []byte("x")})
+				}
+			}
 			c.mu.Lock()
-			c.submitted[st.ID] = &simSubmitted{value: []byte(val), tsMs: -1}
+			c.submitted[st.ID] = rsub
 			c.mu.Unlock()
 			rec.Ev("submit", kv{"id": st.ID, "part": st.Part, "keyed": false, "size": len(val), "resubmitted_object_of": st.From})
 			sent := make(chan struct{})
